@@ -59,7 +59,9 @@ class _G(object):
         if r < 0.42:
             return ["next"]
         if r < 0.67:
-            return ["send", self.rng.choice([None, self.fresh_value(), self.fresh_value()])]
+            # values >= 9000 are delivered as exception INSTANCES used as plain data (errors passed around
+            # as values): send() must deliver them, not raise them
+            return ["send", self.rng.choice([None, self.fresh_value(), self.fresh_value(), 9000 + self.rng.randrange(50)])]
         if r < 0.82:
             return ["throw", self.fresh_exn()]
         if r < 0.96:
@@ -254,6 +256,18 @@ def impl_scripts(case):
     class Env(object):
         pass
 
+    class ExcValue(Exception):
+        """an exception instance that travels as an ordinary value"""
+        def __init__(self, n):
+            Exception.__init__(self, n)
+            self.n = n
+
+    def as_value(v):
+        return ExcValue(v) if isinstance(v, int) and not isinstance(v, bool) and v >= 9000 else v
+
+    def norm(x):
+        return x.n if isinstance(x, ExcValue) else x
+
     def run(decorated):
         env = Env()
         env.msgs = []
@@ -317,22 +331,22 @@ def impl_scripts(case):
             via = (lambda f, *a: contextvars.copy_context().run(f, *a)) if foreign else (lambda f, *a: f(*a))
             try:
                 if inp[0] == "next":
-                    out = ["ret", via(next, gen)]
+                    out = ["ret", norm(via(next, gen))]
                 elif inp[0] == "send":
-                    out = ["ret", via(gen.send, inp[1])]
+                    out = ["ret", norm(via(gen.send, as_value(inp[1])))]
                 elif inp[0] == "throw":
                     e = UserExc(inp[1])
                     env.thrown[inp[1]] = e
-                    out = ["ret", via(gen.throw, e)]
+                    out = ["ret", norm(via(gen.throw, e))]
                 elif inp[0] == "throw_ge":
                     env.nge += 1
                     e = GeneratorExit("mine", env.nge)
                     env.thrown[("ge", env.nge)] = e
-                    out = ["ret", via(gen.throw, e)]
+                    out = ["ret", norm(via(gen.throw, e))]
                 else:
                     out = ["ret", via(gen.close)]
             except StopIteration as e:
-                out = ["stop", e.value]
+                out = ["stop", norm(e.value)]
             except BaseException as e:
                 out = ["raise", classify(e)]
             if not env.done:
